@@ -140,8 +140,46 @@ class FixedPoint(core.Surface):
         return i[0] == "OK" and resgen.count_functions(x["template"]) >= 2
 
 
-CONCRETE, FIXED = Concrete(), FixedPoint()
-SURFACES = {s.name: s for s in (CONCRETE, FIXED)}
+class EditedThenResolved(Concrete):
+    """history: a function-free model is resolved once, then EDITED IN PLACE (sections of another template assigned into it) and
+    resolved again: the second result must be as concrete as a fresh parse of the combined template would give"""
+    name = "function objects left after: m.resolve(p); edit m in place; m.resolve(p)"
+
+    BASE = {"Resources": {"Base0": {"Type": "Custom::Plain", "Properties": {"A": "plain", "B": ["x", "y"]}}}}
+
+    @staticmethod
+    def combined(x):
+        t = copy.deepcopy(x["template"])
+        t.setdefault("Resources", {})["Base0"] = copy.deepcopy(EditedThenResolved.BASE["Resources"]["Base0"])
+        return t
+
+    def impl(self, x):
+        import pycfmodel
+
+        def run():
+            m = pycfmodel.parse(copy.deepcopy(self.BASE))
+            m.resolve(copy.deepcopy(x["extra"]))
+            other = pycfmodel.parse(copy.deepcopy(x["template"]))
+            m.Parameters = other.Parameters
+            m.Conditions = other.Conditions
+            m.Mappings = other.Mappings
+            for rid, res in other.Resources.items():
+                m.Resources[rid] = res
+            r = m.resolve(copy.deepcopy(x["extra"]))
+            left = walk_functions(r.Resources, "Resources") + walk_functions(r.Conditions, "Conditions")
+            nonbool = [k for k, v in (r.Conditions or {}).items() if not isinstance(v, bool)]
+            return {"functions_left": bool(left), "non_bool_conditions": bool(nonbool)}
+        return core.impl_call(run)
+
+    def model(self, rn, x):
+        return Concrete.model(self, rn, {"template": self.combined(x), "extra": x["extra"]})
+
+    def tags(self, x):
+        return Concrete.tags(self, x) | {"edited-in-place"}
+
+
+CONCRETE, FIXED, EDITED = Concrete(), FixedPoint(), EditedThenResolved()
+SURFACES = {s.name: s for s in (CONCRETE, FIXED, EDITED)}
 
 F20_WITNESS = {"template": {"Resources": {"R": {"Type": "AWS::IAM::Policy", "Properties": {
     "PolicyName": {"Fn::Join": ["", ["TR", "UE"]]},
@@ -212,3 +250,5 @@ def cases(rng, tier, shard, nshards):
         x = rare_positions(rng) if k % 2 == 0 else tplgen.gen_template(rng)
         yield CONCRETE, x
         yield FIXED, x
+        if k % 3 == 0:
+            yield EDITED, x
